@@ -30,6 +30,7 @@ ASSUMPTIONS = ['the field configuration is the caller\'s and is well-formed (fie
 
 PACKAGED = gen_iso.packaged_config()
 C07_CODECS = ['ascii', 'latin_1', 'cp500', 'cp1252', 'cp864']
+HEX_ATTACK = [0x20, 0x09, 0x0a, 0x0d, 0x0b, 0x0c, 0x00, 0x5f, 0x2d, 0x2b, 0x78, 0x47, 0x30, 0x46, 0x66, 0xff]
 
 
 class Outcome:
@@ -151,6 +152,28 @@ def subst_sweep(ctx, nmsgs):
                 res = judge_loads(mutated, codec, config, hexbm, default_cfg=not gen)
                 if res:
                     ctx.report(res[0], {'entry': 'loads', 'config': config if gen else None, 'codec': codec, 'hex': hexbm, 'data': mutated}, res[1])
+        if hexbm:
+            # pairs of bytes inside the 32-character hex bitmap: a reader that converts hex leniently (skipping blanks,
+            # accepting separators) ends up with a bitmap of the wrong size
+            hp = 0
+            for pos in range(4, 35):
+                for a in HEX_ATTACK:
+                    for b in HEX_ATTACK:
+                        mutated = data[:pos] + bytes([a, b]) + data[pos + 2:]
+                        hp += 1
+                        res = judge_loads(mutated, codec, config, hexbm, default_cfg=not gen)
+                        if res:
+                            ctx.report(res[0], {'entry': 'loads', 'config': config if gen else None, 'codec': codec, 'hex': hexbm, 'data': mutated}, res[1])
+            for a in HEX_ATTACK:
+                for width in (4, 8, 16, 30, 32):
+                    for start in (4, 5, 4 + 32 - width):
+                        mutated = data[:start] + bytes([a]) * width + data[start + width:]
+                        hp += 1
+                        res = judge_loads(mutated, codec, config, hexbm, default_cfg=not gen)
+                        if res:
+                            ctx.report(res[0], {'entry': 'loads', 'config': config if gen else None, 'codec': codec, 'hex': hexbm, 'data': mutated}, res[1])
+            n += hp
+            ctx.labels['hex-bitmap-pair-substitutions'] += hp
         # classify a sample of them for the reach labels (the full classification would double the cost)
         for pos in positions[::3]:
             rs = reached(config, codec, hexbm, data[:pos] + bytes([(data[pos] + 1) % 256]) + data[pos + 1:])
@@ -167,7 +190,7 @@ def subst_sweep(ctx, nmsgs):
             ctx.sample({'entry': 'loads', 'base_message': data[:120], 'codec': codec, 'hex_bitmap': hexbm,
                         'faults': f'all 255 other values at each of {len(positions)} numeral/bitmap bytes'})
     harness.drive(ctx, valid_cases(ctx.tier, rich=True), body, nmsgs, salt='subst', shrink=False)
-    ctx.enumerated('all 256 byte values at every byte of every length prefix, PDS sub-length, bitmap and TLV length of each generated base message')
+    ctx.enumerated('all 256 byte values at every byte of every length prefix, PDS sub-length, bitmap and TLV length of each generated base message; for hex bitmaps also every pair from a 16-byte attack set at every offset and runs of 4..32 identical attack bytes')
 
 
 # ------------------------------------------------------------------------------------ loads: multi-point mutations
